@@ -538,7 +538,7 @@ func (x *Exec) apply(t *thread, tr *trans) {
 		t.tm.active = true
 	}
 	x.stateHash ^= t.hist
-	if x.states != nil {
+	if x.states != nil && len(x.states) < 4_000_000 {
 		x.states[x.stateKey()] = struct{}{}
 	}
 }
